@@ -6,7 +6,6 @@ import (
 	"fmt"
 	"os"
 	"testing"
-	"testing/synctest"
 	"time"
 )
 
@@ -16,30 +15,29 @@ func TestVF_Debug(t *testing.T) {
 	if os.Getenv("VERIF_DEBUG") == "" {
 		t.Skip("debug only")
 	}
-	synctest.Test(t, func(t *testing.T) {
-		vfDumpWire = true
-		pki := vfGetPKI()
+	pki := vfGetPKI()
+	for _, sv := range []string{"12", "13", "dual"} {
 		n := vfNewNet()
-		vfDumpWire = false
-		for _, cv := range []string{"12", "13", "dual"} {
-			for _, sv := range []string{"12", "13", "dual"} {
-				for _, hv := range []bool{true, false} {
-					n = vfNewNet()
-					co := vfCO(append(vfVerOpts(cv), WithRootCAs(pki.Pool), WithServerName(vfServerName))...)
-					so := vfSO(append(vfVerOpts(sv), WithCertificates(pki.Leaf("ecdsa", "server")))...)
-					if !hv {
-						so = append(so, WithInsecureSkipVerifyHello(true))
-					}
-					p, err := vfNewPair(n, co, so)
-					if err != nil {
-						t.Fatal(err)
-					}
-					ce, se := p.Handshake(30 * time.Second)
-					fmt.Printf("MATRIX client=%s server=%s hv=%v: %v / %v (datagrams %d)\n", cv, sv, hv, vfErrClass(ce), vfErrClass(se), len(n.Emissions("")))
-					p.Close()
-					synctest.Wait()
-				}
-			}
+		n.SetOnSend(func(*vfNet, *vfWire) {})
+		co := vfCO(append(vfVerOpts("12"), WithRootCAs(pki.Pool), WithServerName(vfServerName))...)
+		so := vfSO(append(vfVerOpts(sv), WithCertificates(pki.Leaf("ecdsa", "server")))...)
+		p, err := vfNewPair(n, co, so)
+		if err != nil {
+			t.Fatal(err)
 		}
-	})
+		done := make(chan error, 1)
+		t0 := time.Now()
+		go func() {
+			_ = p.S.Conn.SetWriteDeadline(time.Now().Add(300 * time.Millisecond))
+			_, err := p.S.Conn.Write([]byte("x"))
+			done <- err
+		}()
+		select {
+		case err := <-done:
+			fmt.Printf("DEBUG server=%s: Write returned %v after %v\n", sv, err, time.Since(t0))
+		case <-time.After(3 * time.Second):
+			fmt.Printf("DEBUG server=%s: Write still blocked after 3s (deadline was 300ms)\n", sv)
+		}
+		p.Close()
+	}
 }
